@@ -70,13 +70,35 @@ class Hub:
         if _seen is None:
             _seen = set()
         self._seen = _seen
-        for o in fl.origins(op, interproc=self.ip):
+        for o in fl.origins(op, interproc=self.ip, mut_calls=True):
             k = (body.path, o)
             if k in _seen:
                 continue
             _seen.add(k)
             out |= self.label_origin(body, fl, o, depth)
         return out
+
+    INT_TYS = {'u8', 'u16', 'u32', 'u64', 'u128', 'usize', 'i8', 'i16', 'i32', 'i64', 'i128', 'isize', 'bool'}
+
+    def helper_return_label(self, callee_path, depth):
+        """Label of what a crate-local path helper returns, from its own body (parameters are labelled from its call
+        sites in the serve graph).  None when the body contains something the labelling does not understand."""
+        hb = self.F.body(callee_path)
+        if hb is None:
+            return None
+        key = ('ret', callee_path)
+        if key in self._plabel:
+            return self._plabel[key]
+        if key in self._busy:
+            return set()
+        self._busy.add(key)
+        saved = self._seen
+        lab = self.label_operand(hb, 0, depth + 1, set())
+        self._seen = saved
+        self._busy.discard(key)
+        res = None if OTHER in lab else lab
+        self._plabel[key] = res
+        return res
 
     def label_origin(self, body, fl, o, depth):
         if depth > 40:
@@ -91,6 +113,28 @@ class Hub:
                 return {SAFE}
             if c == 'wire::read_frame':
                 return {TAINT}
+            if c == TMP_OF:
+                # staging-name helper: prefer what its body derives the name from; fall back to "anything in its arguments"
+                lab = self.helper_return_label(c, depth)
+                if lab is not None:
+                    return lab
+            if c == 'std::ops::FromResidual::from_residual':
+                return set()    # the propagated error of `?`: not a path value
+            if c in ('std::string::String::new', 'std::string::String::with_capacity', 'std::path::PathBuf::new', 'std::process::id',
+                     'std::ffi::OsString::new'):
+                return set()
+            if c.startswith('core::fmt::rt::Argument::') or c.startswith('std::fmt::Arguments::') or c in (
+                    'std::fmt::format', 'std::fmt::Write::write_fmt', 'std::ffi::OsStr::to_owned', 'std::path::Path::as_os_str',
+                    'std::ops::Deref::deref', 'std::convert::AsRef::as_ref', 'std::borrow::ToOwned::to_owned', 'std::result::Result::Ok'):
+                t = body.blocks[o.bb]['term']
+                out = set()
+                for a in t['args']:
+                    if c.startswith('core::fmt::rt::Argument::') and 'p' in a:
+                        ty = body.local_ty(a['p']['l']).replace('&', '').replace('mut ', '').strip() if not a['p']['proj'] else ''
+                        if ty in self.INT_TYS:
+                            continue    # an integer renders as digits / hex digits / sign: no separators, no dots
+                    out |= self.label_operand(body, a, depth + 1, self._seen)
+                return out
             if c in (TMP_OF, 'std::path::Path::join', 'std::path::Path::parent', 'std::path::Path::with_extension',
                      'std::path::Path::with_file_name', 'std::path::PathBuf::from', 'std::path::Path::strip_prefix'):
                 t = body.blocks[o.bb]['term']
